@@ -748,7 +748,7 @@ func solveOne(o *Oblig, id int, opt solveOpts) {
 		o.Attempts = append(o.Attempts, fmt.Sprintf("%s:%s:%.2fs", r2.solver, r2.verdict, r2.secs))
 		r = r2
 	}
-	if r.verdict != want && !(r.verdict == "sat" || r.verdict == "unsat") {
+	if r.verdict != want && !(r.verdict == "sat" || r.verdict == "unsat") && os.Getenv("GOVC_FAST") == "" {
 		// race the others
 		others := portfolio
 		rc := make(chan solverResult, len(others))
